@@ -25,6 +25,13 @@ Proof. exact (tf_ok_eq _ W_tf_ok). Qed.
 Theorem C15_world_wf : world_wf W = true.
 Proof. exact W_wf. Qed.
 
+(* every function the property names is registered: for the operator-first position, and -- add, sub, mul,
+   matmul, as torch functions and as Tensor methods -- for the operator-second position *)
+Theorem C15_required_registered :
+  (forall f, In f required_first -> exists m, lookup f (w_first W) = Some m) /\
+  (forall f, In f required_second -> exists m, lookup f (w_second W) = Some m).
+Proof. exact (required_registered W W_required_ok). Qed.
+
 (* ------------------------------------------------------------------------------------------ *)
 (** * dispatch_total: every registered (function, position) x every operator class resolves *)
 
@@ -135,12 +142,12 @@ Theorem C15_end_to_end :
     = Ret A (den_expected A dr da o x0 x1 kw vec).
 Proof. exact end_to_end. Qed.
 
-(* non-vacuity: Tensor - Op is handled by the root __rsub__ whose translated body returns x0 - x1 *)
-Example C15_tensor_minus_op :
-  exists k def, dispatch W "torch.sub" [KTensor; KOp "ToeplitzLinearOperator"] = DCall "LinearOperator" "__rsub__" k [1; 0] true
-             /\ lookup "__rsub__" gen_bodies = Some def
+(* non-vacuity: Tensor @ Op is handled by the root rmatmul, whose translated body returns x0 @ x1 *)
+Example C15_tensor_matmul_op :
+  exists k def, dispatch W "torch.matmul" [KTensor; KOp "ToeplitzLinearOperator"] = DCall "LinearOperator" "rmatmul" k [1; 0] true
+             /\ lookup "rmatmul" gen_bodies = Some def
              /\ forall x0 x1 : Z, den_stmt ZAlg 0%Z 0%Z (mk_env ZAlg 0%Z 0%Z x1 x0 (kw_none ZAlg) false (m_params def)) (m_body def)
-                                  = Ret ZAlg (x0 - x1)%Z.
+                                  = Ret ZAlg (x0 * x1)%Z.
 Proof. eexists. eexists. split; [vm_compute; reflexivity|]. split; [vm_compute; reflexivity|]. intros. cbn. f_equal. ring. Qed.
 Example C15_alg_laws_satisfiable : alg_laws ZAlg.
 Proof. exact ZAlg_laws. Qed.
